@@ -69,6 +69,7 @@ class Engine(ExprMixin, StmtMixin, CallMixin):
         self.strlits = {}
         self.feas_cache = {}
         self.bound_cache = {}
+        self.known_cache = {}
         self.cur_line = None
         self.paths_done = 0
         self.stats = {'paths': 0, 'pruned': 0}
@@ -251,6 +252,49 @@ class Engine(ExprMixin, StmtMixin, CallMixin):
             return z3.simplify(z3.Select(arr, i))
         return z3.Select(arr, idx)
 
+    def upper_bound(self, term, mx):
+        """largest value <= mx that `term` can take under the ENTRY facts of the function under verification (sound for
+        every later state as long as the term only mentions entry symbols, which is checked)"""
+        eng = self
+        t = z3.simplify(term)
+        if z3.is_bv_value(t):
+            return min(mx, t.as_long())
+        entry = eng.frames[0].entry
+        if entry is None:
+            return mx
+        key = (t.get_id(), mx)
+        cache = eng.bound_cache
+        if key in cache:
+            return cache[key]
+        # only entry symbols: uninterpreted constants created before the body ran (no '!' in the name)
+        todo = [t]
+        seen = set()
+        ok = True
+        while todo and ok:
+            x = todo.pop()
+            if x.get_id() in seen:
+                continue
+            seen.add(x.get_id())
+            if z3.is_const(x) and x.decl().kind() == z3.Z3_OP_UNINTERPRETED and '!' in x.decl().name():
+                ok = False
+            todo.extend(x.children())
+        res = mx
+        if ok:
+            s = z3.Solver()
+            s.set('timeout', 2000)
+            s.add(*entry.pc)
+            lo, hi = 0, mx           # invariant: term <= hi is known
+            if s.check(z3.UGT(t, z3.BitVecVal(mx, t.size()))) == z3.unsat or True:
+                while lo < hi:
+                    mid = (lo + hi) // 2
+                    if s.check(z3.UGT(t, z3.BitVecVal(mid, t.size()))) == z3.unsat:
+                        hi = mid
+                    else:
+                        lo = mid + 1
+                res = hi
+        cache[key] = res
+        return res
+
     def alive_check(self, region, what, node=None):
         root = region.root
         if root.heap and root.id in self.st.dead:
@@ -263,6 +307,24 @@ class Engine(ExprMixin, StmtMixin, CallMixin):
     def eval_clause(self, text, ctx):
         tr = Translator(ctx, self.reg.defs if self.reg else {})
         return tr.clause(text)
+
+
+def _small(e, limit):
+    n = 0
+    todo = [e]
+    seen = set()
+    while todo:
+        x = todo.pop()
+        if x.get_id() in seen:
+            continue
+        seen.add(x.get_id())
+        n += 1
+        if n > limit:
+            return False
+        if z3.is_quantifier(x):
+            return False
+        todo.extend(x.children())
+    return True
 
 
 class ClauseCtx:
@@ -334,48 +396,26 @@ class ClauseCtx:
     def is_funcptr(self, v):
         return isinstance(v, FuncPtr)
 
-    def upper_bound(self, term, mx):
-        """largest value <= mx that `term` can take under the ENTRY facts of the function under verification (sound for
-        every later state as long as the term only mentions entry symbols, which is checked)"""
+    def known(self, c):
+        """True / False if the (small conjuncts of the) current path condition decide c, else None"""
         eng = self.eng
-        t = z3.simplify(term)
-        if z3.is_bv_value(t):
-            return min(mx, t.as_long())
-        entry = eng.frames[0].entry
-        if entry is None:
-            return mx
-        key = (t.get_id(), mx)
-        cache = eng.bound_cache
-        if key in cache:
-            return cache[key]
-        # only entry symbols: uninterpreted constants created before the body ran (no '!' in the name)
-        todo = [t]
-        seen = set()
-        ok = True
-        while todo and ok:
-            x = todo.pop()
-            if x.get_id() in seen:
-                continue
-            seen.add(x.get_id())
-            if z3.is_const(x) and x.decl().kind() == z3.Z3_OP_UNINTERPRETED and '!' in x.decl().name():
-                ok = False
-            todo.extend(x.children())
-        res = mx
-        if ok:
-            s = z3.Solver()
-            s.set('timeout', 2000)
-            s.add(*entry.pc)
-            lo, hi = 0, mx           # invariant: term <= hi is known
-            if s.check(z3.UGT(t, z3.BitVecVal(mx, t.size()))) == z3.unsat or True:
-                while lo < hi:
-                    mid = (lo + hi) // 2
-                    if s.check(z3.UGT(t, z3.BitVecVal(mid, t.size()))) == z3.unsat:
-                        hi = mid
-                    else:
-                        lo = mid + 1
-                res = hi
-        cache[key] = res
+        key = (c.get_id(), len(eng.st.pc), eng.st.pc[-1].get_id() if eng.st.pc else 0)
+        if key in eng.known_cache:
+            return eng.known_cache[key]
+        small = [p for p in eng.st.pc if _small(p, 60)]
+        s = z3.Solver()
+        s.set('timeout', 1000)
+        s.add(*small)
+        res = None
+        if s.check(z3.Not(c)) == z3.unsat:
+            res = True
+        elif s.check(c) == z3.unsat:
+            res = False
+        eng.known_cache[key] = res
         return res
+
+    def upper_bound(self, term, mx):
+        return self.eng.upper_bound(term, mx)
 
     def null(self):
         return NULL
@@ -415,8 +455,11 @@ class ClauseCtx:
             if r.id not in mem:
                 raise ClauseError('region %s does not exist in the %s state' % (r.name, 'old' if old else 'current'))
             return TV(self.eng.select(mem[r.id], p.off + idx), False)
-        if r.kind == 'cell' and r.ct.kind == 'int':
-            return TV(mem[r.id], r.ct.signed)
+        if r.kind == 'cell':
+            v = mem.get(r.id)
+            if v is None:
+                raise ClauseError('object %s is uninitialised' % r.name)
+            return self._wrap(v, r.ct)
         raise ClauseError('subscript into %s region' % r.kind)
 
     def field(self, p, fname, old):
